@@ -820,18 +820,60 @@ func (ts *TermStore) liftArgs(args []*Term, f func(cs []*Term) *Term) (*Term, bo
 	if !anyIte || prod > 64 {
 		return nil, false
 	}
-	cur := make([]*Term, len(args))
-	var rec func(i int) *Term
-	rec = func(i int) *Term {
-		if i == len(args) {
-			return f(append([]*Term(nil), cur...))
-		}
-		return ts.lift1(args[i], func(x *Term) *Term {
-			cur[i] = x
-			return rec(i + 1)
-		})
+	// enumerate (guard, leaf-combination) pairs, group equal results: the result is an
+	// ite-tree with one leaf per DISTINCT value, so repeated lifting does not blow up
+	type leaf struct {
+		g *Term
+		v *Term
 	}
-	return rec(0), true
+	var leaves func(t *Term, g *Term, out *[]leaf)
+	leaves = func(t *Term, g *Term, out *[]leaf) {
+		if t.Op == OIte {
+			leaves(t.Args[1], ts.And(g, t.Args[0]), out)
+			leaves(t.Args[2], ts.And(g, ts.Not(t.Args[0])), out)
+			return
+		}
+		*out = append(*out, leaf{g, t})
+	}
+	per := make([][]leaf, len(args))
+	for i, a := range args {
+		leaves(a, ts.T, &per[i])
+	}
+	var order []*Term
+	guards := map[*Term][]*Term{}
+	nonConst := false
+	cur := make([]*Term, len(args))
+	var rec func(i int, g *Term)
+	rec = func(i int, g *Term) {
+		if g.IsFalse() {
+			return
+		}
+		if i == len(args) {
+			r := f(append([]*Term(nil), cur...))
+			if !r.IsConst() {
+				nonConst = true
+			}
+			if _, ok := guards[r]; !ok {
+				order = append(order, r)
+			}
+			guards[r] = append(guards[r], g)
+			return
+		}
+		for _, l := range per[i] {
+			cur[i] = l.v
+			rec(i+1, ts.And(g, l.g))
+		}
+	}
+	rec(0, ts.T)
+	_ = nonConst
+	if len(order) == 0 {
+		return nil, false
+	}
+	res := order[len(order)-1]
+	for i := len(order) - 2; i >= 0; i-- {
+		res = ts.Ite(ts.Or(guards[order[i]]...), order[i], res)
+	}
+	return res, true
 }
 
 func (ts *TermStore) StrAt(a, i *Term) *Term {
